@@ -3,6 +3,7 @@ package verifsimrt
 import (
 	"sync"
 	"sync/atomic"
+	"unsafe"
 )
 
 // Cooperative replacements for sync.Mutex, sync.RWMutex and sync.Once. The
@@ -36,12 +37,17 @@ type Mutex struct {
 	st   lockState
 }
 
+// The race-detector annotations are those of the sync types they replace:
+// the code under test keeps exactly the happens-before edges its own locks
+// give it, and gets none from the simulator.
+
 func (m *Mutex) Lock() {
 	if freeMode.Load() {
 		m.real.Lock()
 		return
 	}
 	acquire(&m.st, true)
+	raceAcquire(unsafe.Pointer(m))
 }
 
 func (m *Mutex) Unlock() {
@@ -49,6 +55,7 @@ func (m *Mutex) Unlock() {
 		m.real.Unlock()
 		return
 	}
+	raceRelease(unsafe.Pointer(m))
 	release(&m.st, true)
 }
 
@@ -56,13 +63,18 @@ func (m *Mutex) TryLock() bool {
 	if freeMode.Load() {
 		return m.real.TryLock()
 	}
-	return tryAcquire(&m.st, true)
+	if !tryAcquire(&m.st, true) {
+		return false
+	}
+	raceAcquire(unsafe.Pointer(m))
+	return true
 }
 
 // RWMutex replaces sync.RWMutex.
 type RWMutex struct {
-	real sync.RWMutex
-	st   lockState
+	real       sync.RWMutex
+	st         lockState
+	rsem, wsem uint32 // addresses for the race annotations (readerSem / writerSem of sync.RWMutex)
 }
 
 func (m *RWMutex) Lock() {
@@ -71,6 +83,8 @@ func (m *RWMutex) Lock() {
 		return
 	}
 	acquire(&m.st, true)
+	raceAcquire(unsafe.Pointer(&m.rsem))
+	raceAcquire(unsafe.Pointer(&m.wsem))
 }
 
 func (m *RWMutex) Unlock() {
@@ -78,6 +92,7 @@ func (m *RWMutex) Unlock() {
 		m.real.Unlock()
 		return
 	}
+	raceRelease(unsafe.Pointer(&m.rsem))
 	release(&m.st, true)
 }
 
@@ -87,6 +102,7 @@ func (m *RWMutex) RLock() {
 		return
 	}
 	acquire(&m.st, false)
+	raceAcquire(unsafe.Pointer(&m.rsem))
 }
 
 func (m *RWMutex) RUnlock() {
@@ -94,6 +110,7 @@ func (m *RWMutex) RUnlock() {
 		m.real.RUnlock()
 		return
 	}
+	raceReleaseMerge(unsafe.Pointer(&m.wsem))
 	release(&m.st, false)
 }
 
@@ -102,7 +119,11 @@ func (m *RWMutex) TryRLock() bool {
 	if freeMode.Load() {
 		return m.real.TryRLock()
 	}
-	return tryAcquire(&m.st, false)
+	if !tryAcquire(&m.st, false) {
+		return false
+	}
+	raceAcquire(unsafe.Pointer(&m.rsem))
+	return true
 }
 
 func (st *lockState) free(write bool) bool {
@@ -123,8 +144,8 @@ func (st *lockState) take(g *G, write bool) {
 
 func tryAcquire(st *lockState, write bool) bool {
 	id := rtGoid()
-	mu.Lock()
-	defer mu.Unlock()
+	lockMu()
+	defer unlockMu()
 	if !st.free(write) {
 		return false
 	}
@@ -140,7 +161,7 @@ func tryAcquire(st *lockState, write bool) bool {
 func acquire(st *lockState, write bool) {
 	id := rtGoid()
 	for {
-		mu.Lock()
+		lockMu()
 		g := byGoid[id]
 		managed := g != nil && g != root && active
 		if st.free(write) {
@@ -148,7 +169,7 @@ func acquire(st *lockState, write bool) {
 				g = nil
 			}
 			st.take(g, write)
-			mu.Unlock()
+			unlockMu()
 			return
 		}
 		if managed {
@@ -158,12 +179,14 @@ func acquire(st *lockState, write bool) {
 			g.parked = true
 			lockWaits++
 			ch := idle
-			mu.Unlock()
+			unlockMu()
+			RaceOff()
 			select {
 			case ch <- struct{}{}:
 			default:
 			}
 			<-g.wake
+			RaceOn()
 			continue
 		}
 		// unmanaged, or the run has been freed: wait durably for a release
@@ -171,14 +194,14 @@ func acquire(st *lockState, write bool) {
 			st.waitCh = make(chan struct{})
 		}
 		ch := st.waitCh
-		mu.Unlock()
-		<-ch
+		unlockMu()
+		waitWake(ch)
 	}
 }
 
 func release(st *lockState, write bool) {
 	id := rtGoid()
-	mu.Lock()
+	lockMu()
 	g := byGoid[id]
 	if write {
 		if st.wheld {
@@ -195,10 +218,12 @@ func release(st *lockState, write bool) {
 		}
 	}
 	if st.waitCh != nil {
+		RaceOff()
 		close(st.waitCh)
+		RaceOn()
 		st.waitCh = nil
 	}
-	mu.Unlock()
+	unlockMu()
 }
 
 // eligible reports whether a parked goroutine can make progress if released.
@@ -216,14 +241,23 @@ type Once struct {
 }
 
 func (o *Once) Do(f func()) {
+	// this package is compiled without race instrumentation, so the atomic
+	// flag is invisible to the race detector: the edge "f returned before any
+	// Do returns" is annotated by hand, as for the locks
 	if o.done.Load() {
+		raceAcquire(unsafe.Pointer(o))
 		return
 	}
 	o.m.Lock()
 	defer o.m.Unlock()
 	if !o.done.Load() {
-		defer o.done.Store(true)
+		defer func() {
+			raceRelease(unsafe.Pointer(o))
+			o.done.Store(true)
+		}()
 		f()
+	} else {
+		raceAcquire(unsafe.Pointer(o))
 	}
 }
 
@@ -231,8 +265,8 @@ var lockWaits int
 
 // LockWaits returns how often a goroutine found a lock held and parked.
 func LockWaits() int {
-	mu.Lock()
-	defer mu.Unlock()
+	lockMu()
+	defer unlockMu()
 	return lockWaits
 }
 
@@ -288,7 +322,7 @@ func (p *Pool) Get() any {
 		}
 		return nil
 	}
-	mu.Lock()
+	lockMu()
 	if !p.reg {
 		p.reg = true
 		pools = append(pools, p)
@@ -303,11 +337,24 @@ func (p *Pool) Get() any {
 		p.items[n-1] = nil
 		p.items = p.items[:n-1]
 	}
-	mu.Unlock()
+	unlockMu()
+	if v != nil {
+		raceAcquire(poolRaceAddr(v))
+	}
 	if v == nil && p.New != nil {
 		v = p.New()
 	}
 	return v
+}
+
+var poolRaceHash [128]uint64
+
+// poolRaceAddr is sync.Pool's: the annotations are keyed by the object, hashed
+// into a small table.
+func poolRaceAddr(x any) unsafe.Pointer {
+	ptr := uintptr((*[2]unsafe.Pointer)(unsafe.Pointer(&x))[1])
+	h := uint32((uint64(uint32(ptr)) * 0x85ebca6b) >> 16)
+	return unsafe.Pointer(&poolRaceHash[h%uint32(len(poolRaceHash))])
 }
 
 func (p *Pool) Put(x any) {
@@ -318,7 +365,8 @@ func (p *Pool) Put(x any) {
 		p.real.Put(x)
 		return
 	}
-	mu.Lock()
+	raceReleaseMerge(poolRaceAddr(x))
+	lockMu()
 	if !p.reg {
 		p.reg = true
 		pools = append(pools, p)
@@ -326,5 +374,5 @@ func (p *Pool) Put(x any) {
 	if len(p.items) < 64 {
 		p.items = append(p.items, x)
 	}
-	mu.Unlock()
+	unlockMu()
 }
